@@ -16,7 +16,11 @@ def how(out):
     cmd = None
     for line in t.splitlines():
         if "cargo test" in line or line.strip().startswith(("bash ", "sh ", "./")):
-            cmd = line.strip(); break
+            cmd = line.strip()
+            for start in ("cd ", "cargo ", "bash ", "sh "):
+                if start in cmd: cmd = cmd[cmd.index(start):]; break
+            cmd = cmd.strip("`")
+            break
     return demos, (m.group(1) if m else None), cmd
 def confirm(pid, v):
     wt, out = f"/tmp/seed/{pid}", f"/tmp/seed/{pid}.out/{v}"
